@@ -6,6 +6,7 @@ exit 0 held (all obligations discharged; KNOWN-FINDING lines allowed)
 from __future__ import annotations
 
 import argparse
+import asyncio
 import concurrent.futures as cf
 import glob
 import hashlib
@@ -76,6 +77,7 @@ def process_top(job):
         custom = getattr(top, 'extra', {}).get('custom')
         if custom is not None:
             return custom(top, out, tier, seed)
+        inner_procs = getattr(top, 'extra', {}).get('procs') or inner_procs  # families of tiny lemmas: procs=1 (no fork per lemma)
         res = _big_frame(vcgen.verify, C.REG, top, tier)
         out['gen_s'] = time.time() - t0
         out['paths'] = res.paths
@@ -86,7 +88,9 @@ def process_top(job):
         out['used'] = sorted(res.used)
         out['feas_checks'] = res.feas_checks
         out['undecided'] = sorted(set(res.undecided))
-        results = solve.discharge_all(res.obligations, timeout_ms, procs=inner_procs, seed=seed, both=(tier == 'thorough'))
+        # contract kwarg solver_procs=1: discharge in-process (forking a solver pool costs seconds per entry, which
+        # dominates for families of many small entries)
+        results = solve.discharge_all(res.obligations, timeout_ms, procs=getattr(top, 'extra', {}).get('solver_procs', inner_procs), seed=seed, both=(tier == 'thorough'))
         xc = out['xcheck'] = {'samples': 0, 'held': 0, 'violated': 0, 'precondition-false': 0, 'error': 0, 'no-model': 0, 'failed': []}
         for ob, r in zip(res.obligations, results):
             if ob.kind == 'xcheck':
@@ -97,7 +101,7 @@ def process_top(job):
                     continue
                 try:
                     rr = R.run_native(top, C.REG, r['cex'])
-                except Exception as ex:  # noqa: BLE001
+                except (Exception, asyncio.CancelledError) as ex:  # noqa: BLE001
                     rr = {'outcome': 'error', 'detail': repr(ex)}
                 oc = rr.get('outcome', 'error')
                 if oc == 'violated' and all(str(f).startswith(('exc#AttributeError', 'exc#TypeError', 'exc#NameError')) for f in rr.get('failed') or ['x']):
@@ -132,7 +136,7 @@ def process_top(job):
                 for label, stt in tries:
                     try:
                         rr = R.run_native(top, C.REG, stt)
-                    except Exception as ex:  # noqa: BLE001
+                    except (Exception, asyncio.CancelledError) as ex:  # noqa: BLE001
                         rr = {'outcome': 'error', 'detail': repr(ex)}
                     rr['from'] = label
                     rr['confirms'] = R.confirms(ob.name, ob.kind, ob.info, rr)
@@ -140,7 +144,7 @@ def process_top(job):
                     if rr['confirms']:
                         w['replay_state'] = stt
                         break
-                if not w['replay'].get('confirms') and 'state' in w and len(e['witnesses']) < 2:
+                if not w['replay'].get('confirms') and 'state' in w and len(e['witnesses']) < 2 and not getattr(top, 'extra', {}).get('no_native_search'):
                     try:
                         hit = R.search_near(top, C.REG, w['state'], lambda rr_: R.confirms(ob.name, ob.kind, ob.info, rr_))
                     except Exception:  # noqa: BLE001
@@ -150,6 +154,15 @@ def process_top(job):
                         rr['confirms'] = True
                         w['replay'] = rr
                 e['witnesses'].append(w)
+        if str(out.get('note') or '').startswith('bounded('):
+            # an entry labelled `bounded(k)` in its note is a bounded stand-in: its obligations are reported under
+            # `bounded` and never counted as discharged (a refuted one is still a violation)
+            nb = 0
+            for e in out['names'].values():
+                if not e['expect_sat']:
+                    e['kind'] = 'bounded'
+                    nb += e['n']
+            out['bounded'].append({'entry': key, 'note': out['note'], 'obligations': nb, 'all_proved': all(e['proved'] == e['n'] for e in out['names'].values())})
     except Exception:
         out['error'] = traceback.format_exc()
     out['wall_s'] = time.time() - t0
@@ -211,6 +224,9 @@ def safe(name):
 
 
 def main():
+    import logging
+
+    logging.disable(logging.CRITICAL)  # native replays / cross-check runs execute real bumble code: keep its log output out of the report
     ap = argparse.ArgumentParser()
     ap.add_argument('prop')
     ap.add_argument('--tier', default=os.environ.get('VERIF_TIER') or 'quick')
@@ -246,13 +262,16 @@ def main():
     ncpu = int(os.environ.get('PYVC_PROCS') or 0) or os.cpu_count() or 4
     outer = max(1, min(len(tops), 5, max(1, ncpu // 2)))
     inner = max(2, (ncpu - 1) // outer)
+    if all((getattr(t, 'extra', {}) or {}).get('procs') == 1 for t in tops):
+        # a family of tiny lemmas that discharge their obligations in-process: all the parallelism goes to the outer pool
+        outer = max(1, min(len(tops), ncpu))
     jobs = [(prop, top_key(t), a.tier, seed, inner, timeout_ms) for t in tops]
     results = []
     if len(jobs) == 1:
         results = [process_top(jobs[0])]
     else:
         with cf.ProcessPoolExecutor(max_workers=outer) as pool:
-            for out_ in pool.map(process_top, jobs):
+            for out_ in pool.map(process_top, jobs, chunksize=max(1, min(8, len(jobs) // (outer * 4)))):
                 results.append(out_)
                 if os.environ.get('PYVC_PROGRESS'):
                     print(f'  .. {out_["key"]} gen={out_.get("gen_s", 0):.1f}s wall={out_.get("wall_s", 0):.1f}s err={bool(out_.get("error"))}', file=sys.stderr, flush=True)
@@ -304,7 +323,7 @@ def main():
             if e.get('disagree'):
                 errors.append(f'{name}: solvers disagree: {e["details"]}')
                 continue
-            if e.get('kind') == 'bounded' and not e['refuted']:
+            if e.get('kind') == 'bounded' and not e['refuted'] and not e['unknown'] and not e.get('vacuous'):
                 continue  # bounded stand-ins are reported under `bounded`, never counted as discharged
             if e['refuted']:
                 # triage by replay
